@@ -65,8 +65,10 @@ theorem afterMoveSelf_errors (l1 : Lib) (env : Env) (w : Watch) (r : Raw) (hrec 
       rw [emit_errors]
 
 /-- **benign histories never produce an error**: whatever record arrives, in whatever state, and
-whatever the kernel has already dropped, `handleEvent` sends nothing on Errors -/
-theorem handle_no_errors (l : Lib) (env : Env) (r : Raw) (hrec : l.enableRecurse = false) :
+whatever the kernel has already dropped, `handleEvent` sends nothing on Errors (public API: no
+recursive watches, which every reachable state satisfies — `C12.reachable_inv`) -/
+theorem handle_no_errors (l : Lib) (env : Env) (r : Raw) (hrec : l.enableRecurse = false)
+    (hnr : ∀ wd w, alLookup wd l.wdT = some w → w.recurse = false) :
     (l.handle env r).out.errors = [] := by
   unfold Lib.handle
   split
@@ -83,14 +85,15 @@ theorem handle_no_errors (l : Lib) (env : Env) (r : Raw) (hrec : l.enableRecurse
           apply afterMoveSelf_errors
           unfold Lib.afterDeleteSelf
           split <;> simp [dropWatch_enableRecurse, hrec]
-      · rw [if_neg hm, emit_errors]
+      · rw [if_neg hm, recurseAfter_norec _ _ _ _ (hnr _ _ hw), emit_errors]
 
 /-- Errors carries exactly one `ErrEventOverflow` per overflow marker and nothing else -/
-theorem errors_are_overflow_only (l : Lib) (env : Env) (r : Raw) (hrec : l.enableRecurse = false) :
+theorem errors_are_overflow_only (l : Lib) (env : Env) (r : Raw) (hrec : l.enableRecurse = false)
+    (hnr : ∀ wd w, alLookup wd l.wdT = some w → w.recurse = false) :
     (l.stepRecord env r).out.errors = if (r.mask &&& IN_Q_OVERFLOW) != 0#32 then [Err.overflow] else [] := by
   unfold Lib.stepRecord
   simp only
-  split <;> simp [handle_no_errors l env r hrec]
+  split <;> simp [handle_no_errors l env r hrec hnr]
 
 /-- **overflow is survivable**: the marker (wd −1, never listed) leaves the bookkeeping exactly as
 it was, so every later record and every later Add/Remove behaves as if it had not happened -/
